@@ -117,22 +117,31 @@ theorem remove_takes_exactly {q q' : KPQ} {k : Nat} (h : q'.Perm (KPQ.remove q k
     t ∈ q' ↔ t ∈ q ∧ t.key ≠ k := by
   rw [h.mem_iff]; exact mem_remove
 
-/-! ### forwarded signals — what the model (and the library) does
+/-! ### forwarded signals: a condition observing a guard is signalled — as a condition — whenever that guard is signalled
 
-KNOWN FINDING (not claimed as a property): a signal *forwarded* from an observed guard is a plain guard signal of the
-observer: `guardSignal` on `g` performs its own front step and then `guardSignal` — not `condSignal` — on every observer,
-so on an observing condition only the front waiter's predicate is evaluated. -/
+`guardSignal fuel w g` is `cmb_resourceguard_signal`; `fwdSignal fuel w o` the delivery of the forwarded signal to the
+observer `o` (the body of the loop of `forward_signal` in cmb_resourceguard.c); `hasHandler w o` says that `o` carries a
+handler for forwarded signals, i.e. is the guard of a condition (`cmb_condition_initialize` installs it);
+`frontStep w g gd` is the part of the signal that concerns `g`'s own waiting list (Props/C06, C08). -/
 
-theorem forwarded_is_plain_signal (fuel : Nat) (w : World) (g : Nat) (gd : Guard) (hg : w.guards[g]? = some gd) :
-    guardSignal (fuel + 1) w g = gd.observers.foldl (fun w o => guardSignal fuel w o) (frontStep w g gd) := by
-  rw [guardSignal_succ, hg]
+/-- a guard has a handler for forwarded signals exactly if it is the guard of a condition -/
+theorem handler_iff_condition_guard {w : World} {o : Nat} : hasHandler w o = true ↔ ∃ c : Nat, w.conds[c]? = some o :=
+  hasHandler_iff
 
-/-- so a condition registered as an observer is signalled (as a guard) whenever the observed list is signalled: with one
-    observer `o`, the signal of `g` is the signal of `o` applied after `g`'s own front step -/
-theorem observer_signalled (fuel : Nat) (w : World) (g o : Nat) (gd : Guard) (hg : w.guards[g]? = some gd)
-    (ho : gd.observers = [o]) :
-    guardSignal (fuel + 1) w g = guardSignal fuel (frontStep w g gd) o := by
-  rw [forwarded_is_plain_signal fuel w g gd hg, ho]; rfl
+/-- `forwarded_signal_is_condition_signal`: signalling a guard `g` performs `g`'s own front step and then delivers the
+    signal to every observer, in list order; the delivery to an observer that is the guard of a condition is exactly
+    `condSignal` on it — EVERY waiter is evaluated, not only the front one (`signal_exact` says what that does) —,
+    after which the signal travels on to that condition's own observers; the delivery to any other observer is a plain
+    guard signal of it -/
+theorem forwarded_signal_is_condition_signal (fuel : Nat) (w : World) (g : Nat) (gd : Guard) (hg : w.guards[g]? = some gd) :
+    guardSignal (fuel + 1) w g = gd.observers.foldl (fun w o => fwdSignal fuel w o) (frontStep w g gd) ∧
+    (∀ (w' : World) (o : Nat), hasHandler w' o = true →
+      fwdSignal (fuel + 1) w' o =
+        match w'.guards[o]? with
+        | none => w'
+        | some od => od.observers.foldl (fun w o' => fwdSignal fuel w o') (condSignal w' o).1) ∧
+    (∀ (w' : World) (o : Nat), hasHandler w' o = false → fwdSignal fuel w' o = guardSignal fuel w' o) := by
+  refine ⟨by rw [guardSignal_succ, hg], fun w' o h => fwdSignal_handler h fuel, fun w' o h => fwdSignal_plain h fuel⟩
 
 /- non-vacuity: a world with a condition whose well-formed queue holds a waiter (key 3 = process 2) exists -/
 example : ∃ (w : World) (gd : Guard), w.conds[0]? = some 0 ∧ w.guards[0]? = some gd ∧ WF guard_queue_check gd.q ∧
